@@ -27,6 +27,7 @@ ASSUMPTIONS = [
     "the validator is the property's rule list written independently; its own sanity is checked per edit (the named rule must be the one it reports)",
 ]
 TIMEOUT = {"quick": 900, "thorough": 6 * 3600}
+OPTIMIZED_SHARDS = ("edit00", "edit01")  # these shards also run under python -O
 NSH = 16
 
 EDIT_NAMES = [
